@@ -461,9 +461,7 @@ func confReset2() {
 // channel contents and closure variables are not part of it).
 func init() {
 	parts = append(parts, partDef{prop: "C16", name: "c16/reachable-states", tiers: "qt", run: func(r *runCtx, p *Part) {
-		if r.shard != 0 {
-			return
-		}
+		// every shard runs the (small) search itself and then cross-checks its own slice of the unpruned sequences
 		maxDepth := 12
 		p.Bounds = fmt.Sprintf("breadth-first search over %d operations (the 12 of the enumeration + a configuration of file-owning loggers incl. an asynchronous rolling-file logger, all 15 entry points, an invalid registration; each Refresh under every iteration order of maps of <= 3 keys: 6 variants) from the reset package, successors deduplicated by (deep hash of the package state, model state), depth <= %d or until no new state appears", nOpsExt, maxDepth)
 		seen := map[string]bool{}
@@ -518,7 +516,7 @@ func init() {
 		}
 		// cross-check of the deduplication: every sequence of length <= 3 (thorough 4), enumerated without any
 		// pruning, must end in a state the search has expanded
-		crossLen, crossed := 3, 0
+		crossLen, crossed, crossN := 3, 0, 0
 		if r.tier == "thorough" {
 			crossLen = 4
 		}
@@ -528,7 +526,10 @@ func init() {
 				if p.Capped {
 					return
 				}
-				if len(cur) > 0 {
+				if len(cur) > 0 && crossN%r.nshards != r.shard {
+					crossN++
+				} else if len(cur) > 0 {
+					crossN++
 					crossed++
 					if k := eval(cur, seeds); !seen[k] {
 						if os.Getenv("VERIF_HASHTRACE") != "" {
@@ -550,7 +551,7 @@ func init() {
 					for o := 0; o < nOpsExt; o++ {
 						ns := nSeeds(o)
 						if len(cur) >= 2 {
-							ns = 1 // from the third operation on: ascending order only
+							ns = min(ns, 2) // from the third operation on: ascending and descending order only
 						}
 						for sd := 0; sd < ns; sd++ {
 							rec(append(append([]int(nil), cur...), o), append(append([]int(nil), seeds...), sd))
@@ -560,9 +561,15 @@ func init() {
 			}
 			rec(nil, nil)
 		}
-		p.States = int64(len(seen))
+		p.States = 0
+		if r.shard == 0 {
+			p.States = int64(len(seen))
+		}
 		closed := len(frontier) == 0 && !p.Capped
-		p.Extra = map[string]any{"distinct_states": len(seen), "new_states_per_depth": fmt.Sprint(perDepth), "fixpoint_reached": closed, "depth_completed": depth, "unpruned_sequences_cross_checked": crossed}
+		p.Extra = map[string]any{"new_states_per_depth": fmt.Sprint(perDepth), "fixpoint_reached": closed, "unpruned_sequences_cross_checked": crossed}
+		if r.shard == 0 { // numeric extras are summed over the shards: the search itself is reported once
+			p.Extra["distinct_states"], p.Extra["depth_completed"] = len(seen), depth
+		}
 		if !closed {
 			p.Bounds += fmt.Sprintf(" [stopped at depth %d with %d unexpanded states]", depth, len(frontier))
 		} else {
